@@ -961,7 +961,7 @@ def case_map(cuqi, meta, fixed, cell):
             cqvec(obs) if rel else c_obs(obs), cbool(extras["wrap_ok"]))
     if not isinstance(obs, str) and meta.get("geom", "default") not in NONID:
         # the hypotheses of C15_closed_form_equals_posterior_mean, decided by the model on this very instance
-        expr += " && check_hyps %s %s %s %s %s %s" % (cnat(m), cnat(n), cqmat(A_eff.tolist()), cqvec(meta["b"]),
+        expr += " && check_mode_hyps %s %s %s %s %s %s" % (cnat(m), cnat(n), cqmat(A_eff.tolist()), cqvec(meta["b"]),
                                                      c_gdesc(meta["ce"], m, computed.get("ce")), c_gdesc(meta["cx"], n, computed.get("cx")))
     return Case(expr=expr, meta=meta, cell=cell, kind="EXACT", impl_fail=fail, signature=sig if fail else "")
 
